@@ -30,6 +30,7 @@ struct HandEntry {
     ack_id: String,
     by: u32,
     response: u64,
+    t_us: u64,
 }
 
 struct StreamCtl {
@@ -305,10 +306,11 @@ impl Sim {
     fn note_received(&self, client: u32, sub: &str, recvs: &[Recv]) {
         let response = self.next_response.get();
         self.next_response.set(response + 1);
+        let t_us = self.now_us();
         let mut hands = self.hands.borrow_mut();
         let hand = hands.entry(sub.to_string()).or_default();
         for r in recvs {
-            hand.push(HandEntry { ack_id: r.ack_id.clone(), by: client, response });
+            hand.push(HandEntry { ack_id: r.ack_id.clone(), by: client, response, t_us });
         }
     }
 
@@ -529,11 +531,11 @@ impl Sim {
     // ------------------------------------------------------------------------------------------
     // Streams
 
-    fn stream_open(self: &Rc<Self>, client: u32, slot: u32, sub: &str, max_msgs: i64, max_bytes: i64, policy: StreamPolicy) {
+    fn stream_open(self: &Rc<Self>, client: u32, slot: u32, sub: &str, max_msgs: i64, max_bytes: i64, policy: StreamPolicy, window: u32, stall_after: u32, stall_us: u64) {
         let (tx, mut rx) = mpsc::unbounded_channel::<pb::StreamingPullRequest>();
         let cancel = CancelHandle::new();
         self.streams.borrow_mut().insert(slot, StreamCtl { tx: Some(tx.clone()), cancel: cancel.clone(), sub: sub.to_string() });
-        self.log(client, Ev::StreamOpen { slot, sub: sub.to_string(), max_msgs, max_bytes });
+        self.log(client, Ev::StreamOpen { slot, sub: sub.to_string(), max_msgs, max_bytes, window });
         let first = pb::StreamingPullRequest {
             subscription: sub.to_string(),
             ack_ids: vec![],
@@ -581,6 +583,11 @@ impl Sim {
                     resp.into_inner()
                 }
             };
+            if window > 0 {
+                sim.stream_pump(client, slot, sub, policy, stream, cancel, window, stall_after, stall_us).await;
+                sim.streams.borrow_mut().remove(&slot);
+                return;
+            }
             let mut nacked_once = false;
             loop {
                 let next = Guarded::new(stream.message(), 0, Some(cancel.clone())).await;
@@ -606,28 +613,115 @@ impl Sim {
                         let recvs: Vec<Recv> = resp.received_messages.iter().map(recv_of).collect();
                         sim.note_received(client, &sub, &recvs);
                         sim.log(client, Ev::StreamItem { slot, recvs: recvs.clone() });
-                        let ids: Vec<String> = recvs.iter().map(|r| r.ack_id.clone()).collect();
-                        match &policy {
-                            StreamPolicy::Hold => {}
-                            StreamPolicy::AckAll => sim.stream_send_raw(client, slot, ids, vec![], vec![], false, None),
-                            StreamPolicy::NackFirst => {
-                                if !nacked_once {
-                                    nacked_once = true;
-                                    let secs = vec![0; ids.len()];
-                                    sim.stream_send_raw(client, slot, vec![], ids, secs, false, None);
-                                }
-                            }
-                            StreamPolicy::ModAck(n) => {
-                                let secs = vec![*n; ids.len()];
-                                sim.stream_send_raw(client, slot, vec![], ids, secs, false, None);
-                            }
-                        }
+                        sim.stream_policy(client, slot, &policy, &recvs, &mut nacked_once);
                     }
                 }
             }
             // The stream is over: forget the control handle (drops the request sender).
             sim.streams.borrow_mut().remove(&slot);
         });
+    }
+
+    fn stream_policy(&self, client: u32, slot: u32, policy: &StreamPolicy, recvs: &[Recv], nacked_once: &mut bool) {
+        let ids: Vec<String> = recvs.iter().map(|r| r.ack_id.clone()).collect();
+        match policy {
+            StreamPolicy::Hold => {}
+            StreamPolicy::AckAll => self.stream_send_raw(client, slot, ids, vec![], vec![], false, None),
+            StreamPolicy::NackFirst => {
+                if !*nacked_once {
+                    *nacked_once = true;
+                    let secs = vec![0; ids.len()];
+                    self.stream_send_raw(client, slot, vec![], ids, secs, false, None);
+                }
+            }
+            StreamPolicy::ModAck(n) => {
+                let secs = vec![*n; ids.len()];
+                self.stream_send_raw(client, slot, vec![], ids, secs, false, None);
+            }
+        }
+    }
+
+    /// The response direction of a stream as a flow-controlled pipe (the HTTP/2 send window of a
+    /// real connection): the server's response stream is polled only while the pipe has room for
+    /// another response, so a client that stops reading leaves the handler suspended at its `yield`.
+    /// The pump is the transport: what it takes from the server has left the server (StreamItem);
+    /// the client side (reader) sees it when it reads, and can only name ack IDs it has read.
+    #[allow(clippy::too_many_arguments)]
+    async fn stream_pump(
+        self: &Rc<Self>,
+        client: u32,
+        slot: u32,
+        sub: String,
+        policy: StreamPolicy,
+        mut stream: tonic::Streaming<pb::StreamingPullResponse>,
+        cancel: CancelHandle,
+        window: u32,
+        stall_after: u32,
+        stall_us: u64,
+    ) {
+        let (ptx, mut prx) = mpsc::channel::<Vec<Recv>>(window as usize);
+        let reader = {
+            let sim = Rc::clone(self);
+            let sub = sub.clone();
+            tokio::task::spawn_local(async move {
+                let mut read = 0u32;
+                let mut stalled = false;
+                let mut nacked_once = false;
+                loop {
+                    if stall_us > 0 && !stalled && read >= stall_after {
+                        stalled = true;
+                        sim.log(client, Ev::StreamStall { slot, on: true });
+                        tokio::time::sleep(Duration::from_micros(stall_us)).await;
+                        sim.log(client, Ev::StreamStall { slot, on: false });
+                    }
+                    match prx.recv().await {
+                        None => break,
+                        Some(recvs) => {
+                            read += 1;
+                            sim.note_received(client, &sub, &recvs);
+                            sim.stream_policy(client, slot, &policy, &recvs, &mut nacked_once);
+                        }
+                    }
+                }
+            })
+        };
+        loop {
+            let permit = match Guarded::new(ptx.reserve(), 0, Some(cancel.clone())).await {
+                GuardOut::Done(Ok(p)) => p,
+                _ => {
+                    drop(stream);
+                    self.log(client, Ev::StreamEnd { slot, end: StreamEnd::Dropped });
+                    break;
+                }
+            };
+            let next = Guarded::new(stream.message(), 0, Some(cancel.clone())).await;
+            match next {
+                GuardOut::Abandoned(_) => {
+                    drop(stream);
+                    self.log(client, Ev::StreamEnd { slot, end: StreamEnd::Dropped });
+                    break;
+                }
+                GuardOut::Panic(m) => {
+                    self.log(client, Ev::StreamEnd { slot, end: StreamEnd::Panic(m) });
+                    break;
+                }
+                GuardOut::Done(Err(status)) => {
+                    self.log(client, Ev::StreamEnd { slot, end: StreamEnd::Status(code_of(&status), status.message().chars().take(120).collect()) });
+                    break;
+                }
+                GuardOut::Done(Ok(None)) => {
+                    self.log(client, Ev::StreamEnd { slot, end: StreamEnd::Eof });
+                    break;
+                }
+                GuardOut::Done(Ok(Some(resp))) => {
+                    let recvs: Vec<Recv> = resp.received_messages.iter().map(recv_of).collect();
+                    self.log(client, Ev::StreamItem { slot, recvs: recvs.clone() });
+                    permit.send(recvs);
+                }
+            }
+        }
+        drop(ptx);
+        let _ = reader;
     }
 
     fn stream_send_raw(
@@ -638,7 +732,7 @@ impl Sim {
         modacks: Vec<String>,
         modack_secs: Vec<i32>,
         hostile: bool,
-        raw: Option<(String, i64, i64)>,
+        raw: Option<(String, i64, i64, i32)>,
     ) {
         let streams = self.streams.borrow();
         let ctl = match streams.get(&slot) {
@@ -649,13 +743,13 @@ impl Sim {
             Some(tx) => tx,
             None => return,
         };
-        let (raw_sub, raw_msgs, raw_bytes) = raw.unwrap_or_default();
+        let (raw_sub, raw_msgs, raw_bytes, stream_secs) = raw.unwrap_or_default();
         let request = pb::StreamingPullRequest {
             subscription: raw_sub,
             ack_ids: acks.clone(),
             modify_deadline_seconds: modack_secs.clone(),
             modify_deadline_ack_ids: modacks.clone(),
-            stream_ack_deadline_seconds: 0,
+            stream_ack_deadline_seconds: stream_secs,
             client_id: String::new(),
             max_outstanding_messages: raw_msgs,
             max_outstanding_bytes: raw_bytes,
@@ -802,10 +896,10 @@ impl Sim {
                 let ids = self.resolve(client, sub, sel);
                 self.modack(client, sub, ids, *secs, ab, timed.clone()).await;
             }
-            Op::StreamOpen { slot, sub, max_msgs, max_bytes, policy } => {
-                self.stream_open(client, *slot, sub, *max_msgs, *max_bytes, policy.clone());
+            Op::StreamOpen { slot, sub, max_msgs, max_bytes, policy, window, stall_after, stall_us } => {
+                self.stream_open(client, *slot, sub, *max_msgs, *max_bytes, policy.clone(), *window, *stall_after, *stall_us);
             }
-            Op::StreamSend { slot, ack, modack, modack_secs, raw_sub, raw_max_msgs, raw_max_bytes, extra_secs, secs_pattern } => {
+            Op::StreamSend { slot, ack, modack, modack_secs, raw_sub, raw_max_msgs, raw_max_bytes, extra_secs, secs_pattern, stream_secs } => {
                 let sub = match self.streams.borrow().get(slot) {
                     Some(c) => c.sub.clone(),
                     None => return,
@@ -816,7 +910,17 @@ impl Sim {
                 secs.extend(extra_secs.iter().cloned());
                 let bad_id = |a: &String| a.is_empty() || !a.bytes().all(|b| b.is_ascii_digit()) || a.len() > 19;
                 let hostile = !raw_sub.is_empty() || *raw_max_msgs != 0 || *raw_max_bytes != 0 || !extra_secs.is_empty() || acks.iter().any(bad_id) || modacks.iter().any(bad_id) || secs.iter().any(|x| *x < 0);
-                self.stream_send_raw(client, *slot, acks, modacks, secs, hostile, Some((raw_sub.clone(), *raw_max_msgs, *raw_max_bytes)));
+                self.stream_send_raw(client, *slot, acks, modacks, secs, hostile, Some((raw_sub.clone(), *raw_max_msgs, *raw_max_bytes, *stream_secs)));
+            }
+            Op::SleepUntilLeaseEnd { sub, nth, secs, offset_us } => {
+                let t = self.hands.borrow().get(sub).and_then(|h| h.get(*nth as usize).map(|e| e.t_us));
+                if let Some(t) = t {
+                    let target = (t as i64 + (*secs as i64) * 1_000_000 + *offset_us).max(0) as u64;
+                    let now = self.now_us();
+                    if target > now {
+                        tokio::time::sleep(Duration::from_micros(target - now)).await;
+                    }
+                }
             }
             Op::StreamCloseReq { slot } => self.stream_close_req(client, *slot),
             Op::StreamDrop { slot } => self.stream_drop(client, *slot),
